@@ -70,6 +70,15 @@ def gen_cases(tier, seed):
         i += 1
         yield {'family': 'after_sort', 'workers': 2, 'pred': 'none', 'n': n, 'idx': i, 'seed': seed, 'rep': 0,
                'layout': 'single', 'yield_injection': False}
+    # upstream_lock: the upstream step and the row function use the same lock (two log calls into one handler): a worker
+    # forked while another thread of the parent holds it never gets it.  context_local: the upstream step computes
+    # under context-local settings of the calling thread (decimal context)
+    for fam in ('upstream_lock', 'context_local'):
+        for w in (2, 3) if tier == 'quick' else (1, 2, 3, 4):
+            for pred in ('none', 'every_3rd') if tier == 'quick' else ('none', 'every_3rd', 'first_selected_late'):
+                i += 1
+                yield {'family': fam, 'workers': w, 'pred': pred, 'n': 40, 'idx': i, 'seed': seed, 'rep': 0,
+                       'layout': 'single', 'yield_injection': False}
     for fam, secs in pauses:
         for w in (2, 3):
             i += 1
@@ -115,9 +124,19 @@ def child_main(case, logpath, outpath):
             return inner(row)
 
     pause = case.get('pause_s', 0)
+    import threading
+    userlock = threading.Lock()
+    if case['family'] == 'context_local':
+        import decimal
+        decimal.getcontext().prec = 6
+        decimal.getcontext().rounding = decimal.ROUND_HALF_UP
 
     def row_func(row):
         labo.log('apply', 'row_func', row.get('id'))
+        if case['family'] == 'upstream_lock':
+            labo.log('get', 'userlock', row.get('id'), 'call')
+            with userlock:
+                labo.log('get', 'userlock', row.get('id'), 'ret')
         if case['family'] == 'slow_row' and row.get('id') == n - 3:
             time.sleep(pause)
         row['_applied'] = row.get('_applied', 0) + 1
@@ -127,9 +146,18 @@ def child_main(case, logpath, outpath):
         for i in range(n):
             if case['family'] == 'upstream_stall' and i == n // 2:
                 time.sleep(pause)
+            if case['family'] == 'upstream_lock':
+                with userlock:
+                    time.sleep(0.002)
+            if case['family'] == 'context_local':
+                import decimal
+                yield {'id': i, 'v': 'a%d' % i, 'q': str(decimal.Decimal(i + 1) / decimal.Decimal(7))}
+                continue
             yield {'id': i, 'v': 'a%d' % i}
     F = [{'name': 'id', 'type': 'integer'}, {'name': 'v', 'type': 'string'}, {'name': '_applied', 'type': 'integer'},
          {'name': '_pid', 'type': 'integer'}]
+    if case['family'] == 'context_local':
+        F = F + [{'name': 'q', 'type': 'string'}]
     desc_a = {'resources': [{'name': 'a', 'path': 'a.csv', 'schema': {'fields': F}}]}
     steps = [d.load((desc_a, [rows_a()]), strip=False)]
     sel = 'a'
@@ -240,6 +268,8 @@ def run_case(case):
             pass
 
     def add(kind, msg, mech=None):
+        if case['family'] == 'upstream_lock' and kind == 'deadlock' and 'userlock' in msg:
+            mech = 'worker_forked_while_upstream_thread_holds_a_lock'
         if case['family'] == 'after_sort' and n > 10240 and kind in ('deadlock', 'run_failed', 'exactly_once', 'shutdown'):
             # the control case (same pipeline, no spill) is part of every run: only the spilled one may carry this tag
             mech = 'upstream_read_from_producer_thread/spilled_kvfile'
@@ -295,6 +325,20 @@ def run_case(case):
             elif r.get('_applied') is not None or r.get('v') != ('%s%d' % (name, r['id'] % 1000)):
                 add('untouched', 'unselected row %r was modified: %r' % (r['id'], r))
                 break
+        if case['family'] == 'context_local' and name == 'a':
+            import decimal
+            with decimal.localcontext() as ctx_:
+                ctx_.prec = 6
+                ctx_.rounding = decimal.ROUND_HALF_UP
+                want = {i_: str(decimal.Decimal(i_ + 1) / decimal.Decimal(7)) for i_ in ids_in}
+            bad = sorted(r['id'] for r in rows_out if r.get('q') != want[r['id']])
+            counters['context_rows_compared'] = counters.get('context_rows_compared', 0) + len(rows_out)
+            if bad:
+                r0 = next(r for r in rows_out if r['id'] == bad[0])
+                add('upstream_context', 'rows %r.. (%d of %d) were computed by the upstream step outside the settings of the '
+                    'calling thread: row %d has q=%r, the sequential flow gives %r'
+                    % (bad[:4], len(bad), len(rows_out), bad[0], r0.get('q'), want[bad[0]]),
+                    'upstream_context_lost_in_producer_thread')
         if name not in par and [r['id'] for r in rows_out] != [r['id'] for r in rows_in]:
             add('order_unselected_resource', 'resource %s (not parallelised) changed order' % name)
     for kind, msg in schedlab.check_log(ev, w, selected, bypass):
